@@ -83,14 +83,47 @@ def cone(target_v: str) -> list[str]:
             continue
         seen.append(f)
         text = _strip_comments((COQ / f).read_text())
-        for m in re.finditer(r"From\s+TL\s+Require\s+(?:Import|Export)\s+([^.]*(?:\.[A-Za-z][^.\s]*)*)\.", text):
+        for m in re.finditer(r"From\s+TL\s+Require\s+(?:Import|Export)\s+(.*?)\.(?=\s|$)", text, re.S):
             for mod in m.group(1).split():
                 todo.append("theories/" + mod.replace(".", "/") + ".v")
     return sorted(seen)
 
 
+def direct_deps(rel_v: str) -> list[str]:
+    text = _strip_comments((COQ / rel_v).read_text())
+    out = []
+    for m in re.finditer(r"From\s+TL\s+Require\s+(?:Import|Export)\s+(.*?)\.(?=\s|$)", text, re.S):
+        for mod in m.group(1).split():
+            f = "theories/" + mod.replace(".", "/") + ".v"
+            if (COQ / f).exists():
+                out.append(f)
+    return out
+
+
 def theorems_in(rel_v: str) -> list[str]:
-    return [m.group(2) for m in THEOREM_RE.finditer(_strip_comments((COQ / rel_v).read_text()))]
+    return [n for n, _ in theorems_with_lines(rel_v)]
+
+
+def theorems_with_lines(rel_v: str) -> list[tuple[str, int]]:
+    text = (COQ / rel_v).read_text()
+    # keep line numbers: blank out comments instead of deleting them
+    out, depth, i, buf = [], 0, 0, []
+    while i < len(text):
+        if text.startswith("(*", i):
+            depth += 1
+            buf.append("  ")
+            i += 2
+        elif text.startswith("*)", i) and depth:
+            depth -= 1
+            buf.append("  ")
+            i += 2
+        else:
+            buf.append(text[i] if (not depth or text[i] == "\n") else " ")
+            i += 1
+    clean = "".join(buf)
+    for m in THEOREM_RE.finditer(clean):
+        out.append((m.group(2), clean.count("\n", 0, m.start(2)) + 1))
+    return out
 
 
 class BuildResult:
@@ -130,26 +163,47 @@ def regen_and_build(targets_v: list[str], timeout: int = 1500) -> BuildResult:
         files = set()
         for t in targets_v:
             files.update(cone(t))
+        # a file is discharged iff coqc accepted it in this state: its .vo is newer than its source and than the
+        # .vo of every dependency, no error was logged for it, and every dependency is discharged
+        status: dict[str, str] = {}
+
+        def check(f: str) -> str:
+            if f in status:
+                return status[f]
+            status[f] = "ok"  # cycle guard
+            why = ""
+            for d in direct_deps(f):
+                if check(d) != "ok":
+                    why = f"not built: dependency {d} failed"
+                    break
+            if not why:
+                vo = COQ / (f[:-2] + ".vo")
+                m = re.search(r'File "\./' + re.escape(f) + r'", line (\d+)[^\n]*\n((?:.|\n)*?)(?=\nmake|\nFile|\Z)', res.log)
+                if m and "Error" in m.group(2):
+                    why = f"line {m.group(1)}: {m.group(2).strip()[:600]}"
+                elif not vo.exists():
+                    why = "no .vo produced (timeout?)"
+                else:
+                    t = vo.stat().st_mtime
+                    if t < (COQ / f).stat().st_mtime or any(t < (COQ / (d[:-2] + ".vo")).stat().st_mtime for d in direct_deps(f)):
+                        why = "stale .vo (not rebuilt)"
+            status[f] = why or "ok"
+            return status[f]
+
         for f in sorted(files):
-            vo = COQ / (f[:-2] + ".vo")
-            if vo.exists() and vo.stat().st_mtime >= (COQ / f).stat().st_mtime:
+            if check(f) == "ok":
                 res.compiled.append(f)
             else:
-                m = re.search(r'File "\./' + re.escape(f) + r'", line (\d+)[^\n]*\n((?:.|\n)*?)(?=\nmake|\nFile|\Z)', res.log)
-                res.failed[f] = (f"line {m.group(1)}: {m.group(2).strip()[:600]}" if m else "not built (a dependency failed or timeout)")
-        # Print Assumptions output is printed while compiling Props files; keep the .assumptions side files
-        for f in sorted(files):
-            if "/Props/" in f and f in res.compiled:
-                side = COQ / (f[:-2] + ".assumptions")
-                if side.exists():
-                    res.assumptions.update(json.loads(side.read_text()))
+                res.failed[f] = status[f]
     return res
 
 
 def capture_assumptions(props_v: str, timeout: int = 600) -> dict[str, str]:
     """compile a Props file alone (dependencies are built) and parse its Print Assumptions output"""
-    p = subprocess.run(["timeout", str(timeout), "coqc", "-Q", "theories", "TL", "-w", "-notation-overridden", props_v,
-                        "-o", "/dev/null"], cwd=COQ, capture_output=True, text=True)
+    import tempfile
+    with tempfile.TemporaryDirectory(prefix="tv-pa-") as td:
+        p = subprocess.run(["timeout", str(timeout), "coqc", "-Q", "theories", "TL", "-w", "-notation-overridden", props_v,
+                            "-o", str(Path(td) / (Path(props_v).stem + ".vo"))], cwd=COQ, capture_output=True, text=True)
     out = p.stdout
     names = [m.group(1) for m in re.finditer(r"Print Assumptions\s+([A-Za-z0-9_']+)", _strip_comments((COQ / props_v).read_text()))]
     blocks = re.split(r"(?=Closed under the global context|Axioms:)", out)
